@@ -12,6 +12,8 @@
      Select     param                                  <<src, body>>
      SelectMany param                                  <<src, body>>
      Where      param                                  <<src, pred>>
+     Let        param                                  <<arg, body>>        (lambda param: body)(arg)
+     NonNull                                           <<ref>>              CMS isNonnull(ref): the reference points at an object
      First                                             <<src>>
      Count/Sum/Min/Max                                 <<src>>
      Aggregate  acc param    elem param                <<src, seed, body>>
@@ -246,6 +248,9 @@ Denote(q, env, ev) ==
     [] q.k = "DictGet" ->
          LET x == Denote(q.ch[1], env, ev) IN
          IF Bad(x) THEN x ELSE x.v[CHOOSE i \in DOMAIN x.keys : x.keys[i] = q.a]
+    \* a lambda applied on the spot; the argument is bound by need like every other parameter
+    [] q.k = "Let" -> Denote(q.ch[2], Bind(env, q.a, Denote(q.ch[1], env, ev)), ev)
+    [] q.k = "NonNull" -> LET r == Denote(q.ch[1], env, ev) IN IF Bad(r) THEN r ELSE BoolV(r.id # 0)
     [] q.k = "Math" -> MathApply(q.a, [i \in 1..q.n |-> Denote(q.ch[i], env, ev)])
     \* C10: enum Color of class A (Red = 0, Blue = 1; q.n = index of the value named in the query):
     \* EnumCmp  recv.color() == <Ns>.Color.<value>;   EnumArg  recv.colorIs(<Ns>.Color.<value>)
@@ -365,6 +370,8 @@ TypeOf(q, tenv, sig) ==
     [] q.k = "TupIdx" -> TypeOf(q.ch[1], tenv, sig).v[q.n + 1]
     [] q.k = "DictGet" -> LET x == TypeOf(q.ch[1], tenv, sig) IN
                           x.v[CHOOSE i \in DOMAIN x.keys : x.keys[i] = q.a]
+    [] q.k = "Let" -> TypeOf(q.ch[2], TBind(tenv, q.a, TypeOf(q.ch[1], tenv, sig)), sig)
+    [] q.k = "NonNull" -> NumT({"bool"})
     [] q.k = "Math" -> NumT({"double"})
     [] q.k = "EnumCmp" -> NumT({"bool"})
     [] q.k = "EnumArg" -> NumT({"int"})
@@ -392,7 +399,7 @@ OccursV(q, x) ==
   IF q.k = "Var" THEN (IF q.a = x THEN 1 ELSE 0)
   ELSE LET RECURSIVE Sm(_)
            Sm(i) == IF i > Len(q.ch) THEN 0
-                    ELSE (IF (q.k \in {"Select", "SelectMany", "Where"} /\ i = 2 /\ q.a = x)
+                    ELSE (IF (q.k \in {"Select", "SelectMany", "Where", "Let"} /\ i = 2 /\ q.a = x)
                              \/ (q.k = "Aggregate" /\ i = 3 /\ x \in {q.a, q.b})
                           THEN 0 ELSE OccursV(q.ch[i], x)) + Sm(i + 1)
        IN Sm(1)
